@@ -235,6 +235,8 @@ impl WebsocketUpgrade {
                 tokio::spawn(async move {
                     match upgrade_fut.await {
                         Ok(upgrade) => {
+                            #[cfg(dropshot_verif)]
+                            crate::verif::emit("ws_upgraded", serde_json::json!({}));
                             let io = hyper_util::rt::TokioIo::new(upgrade);
                             let raw = WebsocketConnectionRaw(io);
                             match handler(WebsocketConnection(raw)).await {
